@@ -110,6 +110,53 @@ Definition run (fallthrough halt : bool) (maxamp : Q) (stages : list stage) (x :
            (results a) (log a) (blocked a).
 
 (* ---------------------------------------------------------------------- *)
+(* run_parallel (the fork pattern): every stage receives the SAME input; a stage's checkpoint guards it here
+   too (since fix 5d83f4c; [ungated = true] is the behaviour before it, documentation only); error handlers and
+   amplification play no part; the run is successful iff every stage completed, and only then are the outputs
+   (here in stage order; the implementation delivers them in completion order) released. *)
+
+Definition par_stage (ungated : bool) (i : nat) (s : stage) (x : Z) : sres * list event * option Z :=
+  let proc (lg : list event) :=
+    match s_proc s x with
+    | Some y => ((i, Completed, Some (s_factor s)), lg ++ [(i, CbProc, x)], Some y)
+    | None => ((i, Failed, None), lg ++ [(i, CbProc, x)], None)
+    end in
+  match s_check s with
+  | None => proc []
+  | Some c =>
+      if ungated then proc []
+      else match c x with
+           | GPass => proc [(i, CbCheck, x)]
+           | GReject => ((i, Blocked, None), [(i, CbCheck, x)], None)
+           | GRaise => ((i, Failed, None), [(i, CbCheck, x)], None)
+           end
+  end.
+
+Fixpoint par_loop (ungated : bool) (i : nat) (stages : list stage) (x : Z)
+  : list (sres * list event * option Z) :=
+  match stages with
+  | [] => []
+  | s :: rest => par_stage ungated i s x :: par_loop ungated (S i) rest x
+  end.
+
+Record presult := mkPResult {
+  p_success : bool; p_outputs : option (list Z); p_completed : nat;
+  p_results : list sres; p_log : list event }.
+
+Fixpoint somes (l : list (option Z)) : list Z :=
+  match l with [] => [] | Some v :: r => v :: somes r | None :: r => somes r end.
+
+Definition run_par (ungated : bool) (stages : list stage) (x : Z) : presult :=
+  let rs := par_loop ungated 0 stages x in
+  let results := map (fun t => fst (fst t)) rs in
+  let completed := length (filter is_completed results) in
+  let success := Nat.eqb completed (length stages) in
+  let outs := somes (map snd rs) in
+  mkPResult success
+            (if success then match outs with [] => None | _ => Some outs end else None)
+            completed results (flat_map (fun t => snd (fst t)) rs).
+
+(* ---------------------------------------------------------------------- *)
 (* concrete behaviours used by the generated correspondence cases          *)
 
 Inductive cbeh := CNone | CConst (g : gate) | CMod (m r : Z) (g1 g2 : gate).
@@ -145,7 +192,8 @@ Definition cb_code (c : cb) : Z :=
   match c with CbCheck => 0 | CbProc => 1 | CbErr => 2 end.
 Definition q_obs (q : Q) : list Z := let r := Qred q in [Qnum r; Zpos (Qden r)].
 
-Definition case := (bool * Q * list cstage * Z)%type.   (* halt, max, stages, input *)
+(* parallel?, halt, max, stages, input *)
+Definition case := (bool * bool * Q * list cstage * Z)%type.
 
 Definition obs_of (r : result) : list (list Z) :=
   [ [ (if r_success r then 1 else 0);
@@ -160,11 +208,26 @@ Definition obs_of (r : result) : list (list Z) :=
               match f with Some q => 1 :: q_obs q | None => [0; 1; 1] end) (r_results r)
   ++ map (fun e : event => let '(i, c, x) := e in [Z.of_nat i; cb_code c; x]) (r_log r).
 
-Definition run_case (c : case) : list (list Z) :=
-  let '(halt, maxamp, stages, x) := c in
-  obs_of (run false halt maxamp (map interp_stage stages) x).
+Definition sres_obs (x : sres) : list Z :=
+  let '(i, st, f) := x in
+  Z.of_nat i :: status_code st :: match f with Some q => 1 :: q_obs q | None => [0; 1; 1] end.
+
+Definition pobs_of (r : presult) : list (list Z) :=
+  [ [ (if p_success r then 1 else 0);
+      match p_outputs r with Some _ => 1 | None => 0 end;
+      0; -1; Z.of_nat (p_completed r) ];
+    [1; 1];
+    [ Z.of_nat (length (p_results r)) ] ]
+  ++ map sres_obs (p_results r)
+  ++ map (fun e : event => let '(i, c, x) := e in [Z.of_nat i; cb_code c; x]) (p_log r)
+  ++ [ -5 :: match p_outputs r with Some l => l | None => [] end ].
+
+Definition run_case_with (legacy : bool) (c : case) : list (list Z) :=
+  let '(par, halt, maxamp, stages, x) := c in
+  if par then pobs_of (run_par legacy (map interp_stage stages) x)
+  else obs_of (run legacy halt maxamp (map interp_stage stages) x).
+
+Definition run_case (c : case) : list (list Z) := run_case_with false c.
 
 (* same, pre-repair behaviour (documentation / refutation only) *)
-Definition run_case_legacy (c : case) : list (list Z) :=
-  let '(halt, maxamp, stages, x) := c in
-  obs_of (run true halt maxamp (map interp_stage stages) x).
+Definition run_case_legacy (c : case) : list (list Z) := run_case_with true c.
